@@ -260,6 +260,7 @@ MANIFEST_META = {
                   "the consequences ip+sp=lc+rc, cp+acp=gp and 'equals the selected grade parts of kingdon's own gp' are checked "
                   "on kingdon's outputs. All patterns for d<=1 (quick) / d<=2 (thorough) are enumerated, the rest sampled with "
                   "blade-pair relations (nested, disjoint, overlapping) constructed on purpose."
-                  " Since rounds 3-4: operand forms (plain number of every kind on either side, list, callable, reflected infix), the identical object on both sides (x.op(x), x ^ x), a literal number inside a registered function, graded algebras.",
+                  " Since rounds 3-4: operand forms (plain number of every kind on either side, list, callable, reflected infix), the identical object on both sides (x.op(x), x ^ x), a literal number inside a registered function, graded algebras."
+                  " The seven products of two dense d=6 operands run every time; symbolic operands are combined and the result called with keyword values.",
     "level_note": "Trusted: kv.refalg, kv.refops, kv.ring.Q, CPython fractions, Hypothesis. Sampling for d>=3; d>5 not explored.",
 }
